@@ -264,10 +264,17 @@ pub struct RetryCase {
     pub off: u8,
     /// None: probe run without a fault
     pub fault_at: Option<usize>,
+    /// the running reception uses implicit headers of this length (None: explicit headers)
+    #[serde(default)]
+    pub run_implicit: Option<u8>,
+    /// before the fetch, a preparation with the *other* header mode is attempted and fails at this environment
+    /// call of its own (0 = its first chip access); the running reception's packets are still fetched by its own rules
+    #[serde(default)]
+    pub stale_prepare_fault: Option<usize>,
 }
 
 fn eval_retry(c: &RetryCase) -> (Vec<(String, String)>, usize) {
-    let g = Group { chip: c.chip.clone(), path: "get_rx_result".into(), buf: 64, implicit: None, continuous: true, max_len: None };
+    let g = Group { chip: c.chip.clone(), path: "get_rx_result".into(), buf: 64, implicit: c.run_implicit, continuous: true, max_len: None };
     let mut s = match build(&g) {
         Ok(s) => s,
         Err(e) => return (vec![(format!("C18|{}|setup-failed", c.chip), e)], 0),
@@ -297,9 +304,12 @@ fn eval_retry(c: &RetryCase) -> (Vec<(String, String)>, usize) {
     }
     let pp = s.pp.take().unwrap();
     let env = s.env.clone();
-    let tag = format!("{}|get_rx_result|retry-after-fault", c.chip);
+    let tag = format!("{}|get_rx_result|{}", c.chip, if c.stale_prepare_fault.is_some() { "after-a-failed-preparation-with-the-other-header-mode" } else { "retry-after-fault" });
     let fault = c.fault_at;
-    let (len, off) = (c.len, c.off);
+    let stale = c.stale_prepare_fault;
+    let run_implicit = c.run_implicit;
+    // the length the running reception's rules define
+    let (len, off) = (run_implicit.unwrap_or(c.len), c.off);
     let r = catch(|| {
         let mut v: Vec<(String, String)> = vec![];
         let mut consumed = 0usize;
@@ -307,6 +317,15 @@ fn eval_retry(c: &RetryCase) -> (Vec<(String, String)>, usize) {
             ($l:expr) => {{
                 if !matches!(drive($l.start_rx()), Some(Ok(()))) {
                     return (v, 0);
+                }
+                if let Some(k) = stale {
+                    let (sf, bw, cr, f) = (SpreadingFactor::_7, Bandwidth::_125KHz, CodingRate::_4_5, 868_100_000u32);
+                    let Ok(mp) = $l.create_modulation_params(sf, bw, cr, f) else { return (v, 0) };
+                    let Ok(other) = $l.create_rx_packet_params(8, run_implicit.is_none(), if run_implicit.is_none() { 17 } else { 255 }, true, true, &mp) else { return (v, 0) };
+                    let p0 = env.0.borrow().pos;
+                    env.0.borrow_mut().fault_at = Some(p0 + k);
+                    let _ = drive($l.prepare_for_rx(RxMode::Continuous, &mp, &other));
+                    env.0.borrow_mut().fault_at = None;
                 }
                 let start = env.0.borrow().pos;
                 env.0.borrow_mut().fault_at = fault.map(|k| start + k);
@@ -517,14 +536,26 @@ pub fn run(tier: Tier, replay: Option<&str>) {
     for chip in ["sx1262", "sx1276", "sx1272"] {
         for len in [1u8, 12, 64] {
             for off in [0u8, 1, 0x40, 0xF8] {
-                let (_, n) = eval_retry(&RetryCase { chip: chip.into(), len, off, fault_at: None });
+                let (_, n) = eval_retry(&RetryCase { chip: chip.into(), len, off, fault_at: None, run_implicit: None, stale_prepare_fault: None });
                 for k in 0..n {
-                    let c = RetryCase { chip: chip.into(), len, off, fault_at: Some(k) };
+                    let c = RetryCase { chip: chip.into(), len, off, fault_at: Some(k), run_implicit: None, stale_prepare_fault: None };
                     for (sig, what) in eval_retry(&c).0 {
                         ctx.violation(sig, what, serde_json::to_value(&c).unwrap(), k);
                     }
                     retry_cases += 1;
                     ctx.tick(1);
+                }
+                // a running reception, then a preparation with the other header mode that fails at its k-th environment
+                // call: the running reception's packets are still fetched by its own rules
+                for run_implicit in [None, Some(17u8)] {
+                    for k in 0..6usize {
+                        let c = RetryCase { chip: chip.into(), len, off, fault_at: None, run_implicit, stale_prepare_fault: Some(k) };
+                        for (sig, what) in eval_retry(&c).0 {
+                            ctx.violation(sig, what, serde_json::to_value(&c).unwrap(), k + 1);
+                        }
+                        retry_cases += 1;
+                        ctx.tick(1);
+                    }
                 }
             }
         }
@@ -549,7 +580,7 @@ pub fn run(tier: Tier, replay: Option<&str>) {
         "device_level_cases": device_cases,
         "retry_after_fault_cases": retry_cases,
         "distinct_nontrivial": returned.load(Ordering::Relaxed),
-        "rule": "chip model (SX1262, SX1276, SX1272) reports every length 0..=255 x offset (all 256 in thorough) x status (SX126x: all 8 command-status values; SX127x: done / CRC error) after a reception; the real driver fetches the packet through LoRa::rx (single and continuous), LoRa::get_rx_result and LorawanRadio::rx_single / rx_continuous into caller buffers of 0, 1, 12, 64, 255, 256 bytes embedded in canaries, in explicit-header mode (configured maximum 255, and 0 / 16 / 64 below what the chip reports) and in implicit-header mode with configured lengths 0, 1, 12, 255; chip buffer holds position-dependent bytes; SX126x continuous reception with an error status on GetPacketStatus only followed by a second packet of length 0 / 1 / half / one less / equal / one more; a fetch that consumes more than 4000 environment calls without returning counts as not returning; a fetch (get_rx_result, continuous reception) with an SPI fault at each of its transactions followed by a retry; plus the device level (see assumptions). non-trivial = cases in which a packet was returned (and compared byte for byte)",
+        "rule": "chip model (SX1262, SX1276, SX1272) reports every length 0..=255 x offset (all 256 in thorough) x status (SX126x: all 8 command-status values; SX127x: done / CRC error) after a reception; the real driver fetches the packet through LoRa::rx (single and continuous), LoRa::get_rx_result and LorawanRadio::rx_single / rx_continuous into caller buffers of 0, 1, 12, 64, 255, 256 bytes embedded in canaries, in explicit-header mode (configured maximum 255, and 0 / 16 / 64 below what the chip reports) and in implicit-header mode with configured lengths 0, 1, 12, 255; chip buffer holds position-dependent bytes; SX126x continuous reception with an error status on GetPacketStatus only followed by a second packet of length 0 / 1 / half / one less / equal / one more; a fetch that consumes more than 4000 environment calls without returning counts as not returning; a running continuous reception (explicit / implicit headers) followed by a preparation with the other header mode that fails at its 1st..6th environment call, then the fetch; a fetch (get_rx_result, continuous reception) with an SPI fault at each of its transactions followed by a retry; plus the device level (see assumptions). non-trivial = cases in which a packet was returned (and compared byte for byte)",
         "samples": [
             serde_json::to_value(Case { group: groups[0].clone(), len: 13, off: 250, status: 2, second: None }).unwrap(),
             serde_json::to_value(Case { group: groups[groups.len() - 1].clone(), len: 255, off: 1, status: 0, second: None }).unwrap(),
